@@ -17,6 +17,9 @@ Num2 == {Bin(o2, Bin(o1, A, One), R) : o1 \in NumOps, o2 \in NumOps} \cup {Bin(o
         \cup {Un("-", Bin(o, A, One)) : o \in NumOps} \cup {Bin(o, Un("-", A), One) : o \in NumOps}
         \cup {Call("f1", <<Bin(o, A, One)>>) : o \in {"+", "*"}} \cup {Call("ABS", <<A>>)}
         \cup {Bin("*", Bin("+", A, One), Bin("-", B, R)), Bin("-", A, Bin("-", B, One)), Bin("/", A, Bin("/", B, Two))}
+        \* a sign directly before a sign (two minus signs in a row would start a remark), signs after binary operators
+        \cup {Un("-", Un("-", Lit("int", "5"))), Un("-", Un("-", R)), Un("-", Un("-", A)), Bin("-", A, Un("-", One)), Bin("*", A, Un("-", Two)),
+               Bin("-", Un("-", One), Un("-", Un("-", Two))), Call("f1", <<Un("-", Un("-", Two))>>), Bin("+", A, Un("+", One))}
         \cup {Lit("real", v) : v \in {"0.0", "1.5E3", "1.0E-10", "2.", "100000.0"}} \cup {Lit("int", v) : v \in {"0", "2147483647"}}
 NumCases == {[kind |-> "num", e |-> x] : x \in Num2}
 (* boolean expressions *)
@@ -26,6 +29,9 @@ Bool2 == {Bin(o, A, Bin("+", One, R)) : o \in RelOps} \cup {Bin(o, Bin("*", A, T
          \cup {Bin(l1, Rel("<"), Bin(l2, Rel("="), Rel(">="))) : l1 \in LogOps, l2 \in LogOps}
          \cup {Un("NOT", Bin(l, Rel("<"), Rel("="))) : l \in LogOps} \cup {Bin(l, Un("NOT", Rel("<")), Rel("=")) : l \in LogOps}
          \cup {Interval(One, "<=", A, "<", Bin("+", Two, One)), Interval(Un("-", One), "<", A, "<=", R)}
+         \* relational operators do not associate: a comparison that is an operand of a comparison keeps its parentheses
+         \cup {Bin(o1, Rel(o2), Rel("<")) : o1 \in {"=", "<>"}, o2 \in {"=", ">="}} \cup {Bin("=", Rel("<"), Lit("id", "TRUE")), Bin("=", Lit("id", "TRUE"), Rel("<"))}
+         \cup {Un("NOT", Un("NOT", Rel("<")))}
          \cup {Bin("IN", A, Agg(<<One, Two, Bin("+", One, Two)>>)), Bin("IN", A, Agg(<<Rep(One, Two), Two>>)), Bin("IN", A, Agg(<<One, One, Two>>)),
                \* a repetition count need not be a literal; and the literals 0 and 1 used as a count elsewhere stay ordinary elements here
                Bin("IN", A, Agg(<<Rep(One, A)>>)), Bin("IN", A, Agg(<<Rep(Two, Bin("+", A, One)), One>>)),
